@@ -3,6 +3,7 @@
 # Verifies a seeded change (/verif/seeded/<name>/patch.diff + demo_test.go) in a scratch worktree, then applies it to /repo,
 # runs the registered quick checks of the given properties, and restores /repo.
 set -u
+if [ -n "$(git -C /repo status --porcelain)" ]; then echo "/repo has uncommitted changes: commit them first (this script restores /repo with git checkout)"; exit 9; fi
 NAME=$1; shift
 S=/verif/seeded/$NAME
 export GOFLAGS=-mod=mod GOPROXY=off GOSUMDB=off GOTOOLCHAIN=local
